@@ -147,6 +147,12 @@ fn part_a(ctx: &mut Ctx) {
         case.requested = vec![0, r.gen_range(0..4)];
         case.threads = r.gen_range(1..=4);
         case.markers = false;
+        if r.gen_bool(0.3) {
+            // the faulty file is reached only through a symbolic link in the requested directory
+            case.linked = true;
+            case.input_style = 4;
+            case.fail_kind = r.gen_range(0..4);
+        }
         for f in [FixedOrder::RunFirstLifo, FixedOrder::RecvFirstFifo, FixedOrder::DepsLast] {
             let spec = Spec::Controlled { strategy: Strategy::Fixed(f), early_poll_at: None, eager_recv: false };
             let run = exec(ctx, &case, spec.clone(), true);
